@@ -71,9 +71,60 @@ def register(db):
         loops=[Loop(invariants=[], header="cast(type[Enum], data_type)")],
         properties=["C05", "C09", "C15"],
     ))
+    register_candidates(db)
     db.add(Contract(
         f"{E}.deserialize", variant="not-an-enum",
         params={"self": f"obj:{E}", "value": "str", "data_type": None}, kwargs=KW,
         ensures=[("never-returns", "False")], raises={"ConverterError": True},
         properties=["C15"],
+    ))
+
+
+def register_candidates(db):
+    """ConverterFactory.deserialize(value, types): the candidate types are tried in the given order and the first
+    one whose converter accepts the value decides the result; ConverterError iff none accepts."""
+    from pyvc.contracts import pure_result
+
+    def conv_deserialize(ex, st, recv, args, kwargs):
+        """Assumed contract of a registered converter: whether it accepts (value, data_type, options) is a
+        predicate of those, the converted value a function of them; rejection is a ConverterError."""
+        dt = kwargs.get("data_type")
+        extra = [kwargs.get("format"), kwargs.get("ns_map")] if isinstance(kwargs, dict) else []
+        key = [recv, args[0], dt] + [e for e in extra if e is not None]
+        ok = pure_result(ex, st, "Converter.accepts", "bool", key)
+        for st1, good in ex.branch(st, ok):
+            if good:
+                yield st1, pure_result(ex, st1, "Converter.value", "u:Any", key)
+            else:
+                yield ex.raise_(st1, "ConverterError")
+
+    assume_method(db, "Converter2", "deserialize", custom=conv_deserialize)
+    db.add(Contract(f"{F}.type_converter", variant="call-view", trusted=True, call_default=True, params={}, returns="u:Converter2",
+                    raises={"ConverterError": "not uf('type_converter.registered', 'bool', data_type)"},
+                    call_ensures=["result == uf('type_converter', 'u:Converter2', data_type)", "uf('type_converter.registered', 'bool', data_type)"],
+                    note="assumed: the registered converter is a function of the type (registry lookup along the mro)"))
+
+    def factory(mk, base):
+        return mk.obj(F, {"registry": "opaque:PyDict"})
+
+    ACC = "uf('Converter.accepts', 'bool', uf('type_converter', 'u:Converter2', types[{i}]), value, types[{i}])"
+    VAL = "uf('Converter.value', 'u:Any', uf('type_converter', 'u:Converter2', types[{i}]), value, types[{i}])"
+    db.add(Contract(
+        f"{F}.deserialize", variant="first-accepting-candidate",
+        params={"self": factory, "value": "opaque:Any", "types": "seq[u:type]"}, kwargs={"known": {}, "open": False},
+        ghost={"i": "int"},
+        ensures=[
+            # for an arbitrary position i: if the converter of types[i] accepts and no earlier candidate's does, its value is the result
+            ("the-first-accepting-candidate-decides",
+             "implies(0 <= i and i < len(types) and " + ACC.format(i="i") + " and uf('type_converter.registered', 'bool', types[i]) and "
+             "forall('int', lambda j: implies(0 <= j and j < i, not (uf('type_converter.registered', 'bool', types[j]) and " + ACC.format(i="j") + "))), "
+             "result == " + VAL.format(i="i") + ")"),
+        ],
+        raises={"ConverterError": "forall('int', lambda j: implies(0 <= j and j < len(types), "
+                                  "not (uf('type_converter.registered', 'bool', types[j]) and " + ACC.format(i="j") + ")))"},
+        loops=[Loop(invariants=["forall('int', lambda j: implies(0 <= j and j < _i, "
+                                "not (uf('type_converter.registered', 'bool', types[j]) and " + ACC.format(i="j") + ")))"],
+                    header="types")],
+        properties=["C05"],
+        note="candidate order = priority; which order a field's types are in is decided by sort_types (not under contract)",
     ))
